@@ -1,3 +1,73 @@
+/-
+  C03 at ACTION granularity, from the ENGLISH premises.
+
+  C03: "No spurious loss: if the combined weight of all keys never exceeds the cache weight, then once a put or upsert of
+  key k has been acknowledged as accepted every read of k returns its latest acknowledged value until k is deleted or its
+  current time-to-live elapses, provided operations on k itself are issued one after another (each acknowledged before the
+  next begins).  Traffic on other keys, access counting, sketch ageing and sweeps of other keys never remove or alter it."
+
+  `C03_layerB_quiet_run_retains` (Entries.lean) ASSUMES that no action of the run is the eviction of k, the sweep of k, a
+  delete mark … (`touches k b a = false`).  Here the absence of the eviction and of the sweep is DERIVED: from "the demand
+  fits" (a condition on the requests issued) and from "the time-to-live has not elapsed" (a condition on the stored
+  deadline and the clock), for every interleaving of any number of clients with the worker, the sweeper, the consumer and
+  the clock.  The run invariants are in RetainedLemmas.lean.
+
+  Definitions (all on the history `h : List (BState × Act)` of a run `RunH b₀ h b`; events by index, oldest first)
+    `Req.demand cfg r`      the weight a request may add: the weight of a put; the weight of a `put_or_update` (explicit,
+                            else `cfg.weightOf` of its value); `ttl_ticker_entry_size` for a `put_or_update` that gives
+                            neither but sets a time-to-live; 0 otherwise                           (RetainedLemmas.lean)
+    `DemandFits cfg h`      `0 ≤ ttl_ticker_entry_size` and the demands of ALL requests issued along `h` sum up to at most
+                            `cfg.maxWeight` — requests only, no state
+    `NoShutdownReq h`       no `shutdown()` is requested                                            (RetainedLemmas.lean)
+    `Req.danger k r`        `r` is a put, a delete or a VALUE-carrying `put_or_update` of `k`;  `Req.modifies k r`: a put,
+                            a delete or ANY `put_or_update` of `k`
+    `FirstRet h b i p q out` the `q`-th action is the first return of client `i` after `p`, with result `out`: the return
+                            of the call begun at `p`                                               (RetainedLemmas.lean)
+    `AnsweredBy h b i p n s` the call `i` began at `p` returned before `n`, and if it returned `Ok(ack hd)` the cell `hd`
+                            is not pending in `s` (answered on the spot, or completed by the worker)
+    `SerialOps k h b`       whenever a put / delete / `put_or_update` of `k` is issued, every earlier one is `AnsweredBy`
+    `AckedAcceptedAt h b j p₀ p₁`  the call `j` began at `p₀` returned `Ok(ack hd)` and the `p₁`-th action runs in a state in
+                            which `hd` holds `Accepted`
+    `LiveK k s`, `LiveDuring k h lo hi`   the entry of `k` (if any) is not past its own stored deadline in `s` / in the state
+                            of every action from `lo` to `hi`
+
+  Theorems
+    `C03_layerB_no_eviction_when_demand_fits`   (1) along every run from the initial state without `shutdown()` whose
+        requests satisfy `DemandFits`, the worker NEVER stands at a position of the eviction loop (`sample.init`,
+        `kw.remove` / `wu.sub` / `store.remove` of a victim, `wu.space` after an eviction, `sample.fill`, the empty-sample
+        re-check) and no acknowledgement ever holds `Rejected(NotEnoughSpace)`.  Composition of
+        `C03_layerB_eviction_under_pressure` with the budget invariant `Bud` (every key id has a budget — the demands of the
+        requests attributed to it; every weight under way for the id is within it, D1 included: an `UpdateWeight` is counted
+        at the weight it carries; `weight_used + incoming ≤ Σ budgets ≤ Σ demands` by `C05_layerB_accounting`).
+    `C03_layerB_retained_core`   (2, state form) a write of `(k, v)` issued in a state that is `Safe k` (no put / delete /
+        value upsert of `k` under way) and `EvInv · k`, acknowledged `Accepted`; no put / delete / value upsert of `k`
+        issued since; the entry live in every state since: then the entry is there, alive, with value `v`.
+    `C03_layerB_retained'`, `C03_layerB_retained`   (2, event form) the same with `Safe` DERIVED from `SerialOps`
+        (`safe_of_answered`: the provenance invariant `Prov`) and `EvInv` from "the incarnation has been live since its
+        birth" (`evinv_run_born`); the acknowledgement may have been answered at any `p₁` before the lookup
+        (`acks_stable_run`).
+    `C03_layerB_retained_read`   a `get(k)` / `get_ref(k)` issued after the acknowledgement RETURNS `Some(v)`;
+    `lookup_hits`                … and the `store.get` of ANY read variant — `get`, `get_ref`, any position of a multi-key
+        read — moves on to `pool.add` carrying `v` (applied to the state given by `C03_layerB_retained'`).
+  How the removers are excluded: eviction — (1); the sweeper — `EvInv` + liveness (`evinv_step_live`, `evinv_sweeper_keeps`;
+  `C03_layerB_serial_key_not_lost_to_sweeper` is NOT applicable: its hypothesis `SerialEv` constrains the sweeper's
+  position and does not follow from `SerialOps`, `serialOps_not_serialEv`); `delete(k)`, another put / value upsert — the
+  phase invariant `WPhase` under `Safe` at the issue and no dangerous request since; `shutdown()` — `NoShutdownReq`.
+
+  The premise "its current time-to-live has not elapsed", PRECISELY: the entry of `k` is live in the state of every action
+  from the issue of the write to the lookup (`LiveDuring k h p₀ n₁`), and the incarnation standing at the issue (if any)
+  was born by a `store.put` action `c < p₀` and has been live in every state since (`hborn`).  Checked only at the read it
+  is NOT enough — FINDING `C03_layerB_retained_literal_counterexample` (known finding D3: a `put_or_update` of an
+  expired-but-unswept entry is acknowledged `Accepted` and the entry is removed by the sweeper, already past its check);
+  checked only from the issue of the write it is not enough either — `C03_layerB_retained_needs_no_revival` (the entry was
+  revived by an earlier value-less upsert).  The D12 / D15 residue (an expired key left unsweepable) does not touch
+  retention.
+
+  Concrete runs (section 5): `retRun` (100 actions, three clients: one on key 1 — put, value upsert, time-to-live upsert,
+  reads by all three clients and all three read variants —, two on keys 2 and 3 — puts, a delete, an upsert, a read; two
+  clock moves, four sweeps, one of which evicts key 3) satisfies every premise, `SerialOps` included, and the theorems are
+  applied to it; `C03_layerB_retained_needs_demand_fits`, `…_needs_serial`, `…_needs_no_revival`: no premise can be dropped.
+-/
 import CachedProofs.LayerB.RetainedLemmas
 
 namespace Cached
@@ -145,7 +215,7 @@ theorem Req.modifies_of_danger {k : Nat} {r : Req} (h : r.danger k = true) : r.m
   cases r <;> simp only [Req.danger] at h <;> try cases h
   case putW => exact h
   case delete => exact h
-  case upsert k' v w ttl rm => cases v <;> simp only [Req.danger] at h <;> first | cases h | exact h
+  case upsert k' v w ttl rm => cases v <;> first | cases h | exact h
 
 theorem writesReq_modifies {k v : Nat} {r : Req} (h : WritesReq r k v) : r.modifies k = true := by
   rcases h with ⟨w, ttl, rfl⟩ | ⟨w, ttl, rm, rfl⟩ <;> simp [Req.modifies]
@@ -507,6 +577,455 @@ def retRun : List (Act × Oracle) :=
 set_option maxRecDepth 100000 in
 theorem retRun_ok : retOk retInit retRun = true := by decide
 
+
+
+theorem at_state_check {h : List (BState × Act)} {n : Nat} {P : BState → Prop} [DecidablePred P]
+    (hc : allAt h (fun q s _ => q != n || decide (P s)) = true) : ∀ s a, At h n (s, a) → P s := by
+  intro s a hx
+  have := allAt_sound hc n s a hx
+  simpa using this
+
+/-- the history and the final state of `retRun` -/
+abbrev retH : List (BState × Act) := retHist retInit retRun
+abbrev retB : BState := retFinal retInit retRun
+
+theorem retRun_run : RunH { BState.init retCfg 0 [1, 2, 3, 4] 3 with storeShard := [] } retH retB :=
+  retRunH retRun_ok
+
+/-! ### non-vacuity: every premise of `C03_layerB_retained'` holds of `retRun`
+
+  Key 1; THE WRITE `put_or_update(1, Some(101))` issued by client 0 at 37, returned at 48 with the handle 3, answered
+  `Accepted` by the worker's action 51; the incarnation born by the `store.put` action 18 of the put issued at 0; the lookups
+  91 (`get` of client 0), 92 (`get_ref` of client 1) and 97 (position 1 of `multi_get([3, 1, 2])` of client 2). -/
+
+/-- the write -/
+abbrev retReq : Req := .upsert 1 (some 101) none none false
+
+set_option maxRecDepth 100000 in
+/-- the demand fits (5 + 4 + 3 + 1 + 24 + 25 ≤ 200); no `shutdown()` -/
+theorem retW_fit : DemandFits retCfg retH ∧ NoShutdownReq retH := ⟨by decide, by decide⟩
+
+set_option maxRecDepth 100000 in
+/-- the write is issued at 37; the one put / delete / value-carrying upsert of key 1 issued before it — the put of
+    client 0 at 0 — returned at 4 and was answered by then -/
+theorem retW_issue : ∃ s₀, At retH 37 (s₀, .issue 0 retReq) ∧
+    ∀ p i r, p < 37 → Issued retH i r p → r.danger 1 = true → AnsweredBy retH retB i p 37 s₀ := by
+  obtain ⟨s₀, hs₀⟩ : ∃ s₀, At retH 37 (s₀, .issue 0 retReq) := ⟨_, rfl⟩
+  refine ⟨s₀, hs₀, ?_⟩
+  intro p i r hp hi hd
+  obtain ⟨rfl, rfl⟩ := dangerIssued_check (P := fun q i _ => q = 0 ∧ i = 0) (h := retH) (k := 1) (n := 37)
+    (by decide) p i r hp hi hd
+  have hacks : s₀.g.acks[0]? = some .accepted :=
+    at_state_check (h := retH) (n := 37) (P := fun s => s.g.acks[0]? = some .accepted) (by decide) s₀ _ hs₀
+  exact ⟨4, .ack 0 .pending, ⟨by decide, ⟨_, _, rfl, Or.inr ⟨_, rfl⟩, rfl, rfl⟩, noIssue_check (by decide)⟩,
+    by decide, fun hd st e => by cases e; exact ⟨.accepted, hacks, by simp⟩⟩
+
+set_option maxRecDepth 100000 in
+/-- the incarnation of key 1 standing at 37 was born by the `store.put` action 18 and has been live since -/
+theorem retW_born : (∀ x, At retH 18 x → isPutAny 1 x) ∧ LiveDuring 1 retH 19 37 := by
+  refine ⟨?_, liveDuring_check (by decide)⟩
+  intro x hx
+  have h18 : At retH 18 (_, .worker) := rfl
+  cases hx.inj h18
+  refine ⟨100, 1, rfl, _, some 10000000000, rfl, rfl, rfl, rfl, ?_⟩
+  decide
+
+set_option maxRecDepth 100000 in
+/-- the write returned `Ok(ack 3)` at 48; the cell 3 holds `Accepted` in the state of action 52 -/
+theorem retW_acked : AckedAcceptedAt retH retB 0 37 52 :=
+  ⟨48, 3, .pending, _, _, ⟨by decide, ⟨_, _, rfl, Or.inr ⟨_, rfl⟩, rfl, rfl⟩, noIssue_check (by decide)⟩,
+    by decide, rfl, rfl⟩
+
+set_option maxRecDepth 100000 in
+/-- after 37 no put, delete or value-carrying upsert of key 1 is issued (the upsert at 67 carries no value), and the
+    entry of key 1 is live in every state (deadline 10 s, then 23 s; the clock reaches 3 s) -/
+theorem retW_quiet : (∀ q s i r, 37 < q → q < 100 → At retH q (s, .issue i r) → r.danger 1 = false) ∧
+    LiveDuring 1 retH 37 100 := ⟨noDanger_check (by decide), liveDuring_check (by decide)⟩
+
+set_option maxRecDepth 100000 in
+/-- the three lookups of key 1 -/
+theorem retW_lookups :
+    (∃ s, At retH 91 (s, .client 0) ∧ s.cl[0]? = some (.getStore 1)) ∧
+    (∃ s, At retH 92 (s, .client 1) ∧ s.cl[1]? = some (.refStore 1)) ∧
+    (∃ s, At retH 97 (s, .client 2) ∧ s.cl[2]? = some (.mgetStore 1 [2] [some 301] false)) :=
+  ⟨⟨_, rfl, rfl⟩, ⟨_, rfl, rfl⟩, ⟨_, rfl, rfl⟩⟩
+
+set_option maxRecDepth 100000 in
+/-- the two single-key reads: begun at 85 / 86, returned at 94 / 95 -/
+theorem retW_reads :
+    Issued retH 0 (.get 1) 85 ∧ (∃ out, Returned retH retB 0 94 out) ∧ (∀ q r, 85 < q → q < 94 → ¬ Issued retH 0 r q) ∧
+    Issued retH 1 (.getRef 1) 86 ∧ (∃ out, Returned retH retB 1 95 out) ∧ (∀ q r, 86 < q → q < 95 → ¬ Issued retH 1 r q) :=
+  ⟨⟨_, rfl⟩, ⟨.value (some 101), _, _, rfl, Or.inr ⟨_, rfl⟩, rfl, rfl⟩, noIssue_check (by decide),
+   ⟨_, rfl⟩, ⟨.value (some 101), _, _, rfl, Or.inr ⟨_, rfl⟩, rfl, rfl⟩, noIssue_check (by decide)⟩
+
+
+/-- **`C03_layerB_retained'` applied to `retRun`**: at each of the three lookups the store holds under key 1 an alive
+    entry with the value 101 -/
+theorem C03_layerB_retained_witness (n₁ : Nat) (s₁ : BState) (a₁ : Act) (hat : At retH n₁ (s₁, a₁)) (h1 : 52 ≤ n₁)
+    (h2 : n₁ ≤ 100) : ∃ e, s₁.g.store.get? 1 = some e ∧ e.value = 101 ∧ e.alive s₁.g.now = true := by
+  obtain ⟨s₀, hs₀, hser⟩ := retW_issue
+  exact C03_layerB_retained' retRun_run retW_fit.1 retW_fit.2 (Or.inr ⟨none, none, false, rfl⟩) hs₀ hser
+    (Or.inr ⟨18, by decide, retW_born.1, retW_born.2⟩) hat (by decide : 37 < 52) h1 retW_acked
+    (fun q s i r hq1 hq2 => retW_quiet.1 q s i r hq1 (by omega))
+    (fun q s a hq1 hq2 => retW_quiet.2 q s a hq1 (by omega))
+
+example : ∃ s e, At retH 91 (s, .client 0) ∧ s.cl[0]? = some (.getStore 1) ∧ s.g.store.get? 1 = some e ∧
+    e.value = 101 ∧ e.alive s.g.now = true := by
+  obtain ⟨s, hs, hpc⟩ := retW_lookups.1
+  obtain ⟨e, he⟩ := C03_layerB_retained_witness 91 s _ hs (by decide) (by decide)
+  exact ⟨s, e, hs, hpc, he⟩
+
+example : ∃ s e, At retH 97 (s, .client 2) ∧ s.cl[2]? = some (.mgetStore 1 [2] [some 301] false) ∧
+    s.g.store.get? 1 = some e ∧ e.value = 101 ∧ e.alive s.g.now = true := by
+  obtain ⟨s, hs, hpc⟩ := retW_lookups.2.2
+  obtain ⟨e, he⟩ := C03_layerB_retained_witness 97 s _ hs (by decide) (by decide)
+  exact ⟨s, e, hs, hpc, he⟩
+
+/-- **`C03_layerB_retained_read` applied to `retRun`**: whatever `get(1)` of client 0 (85–94) and `get_ref(1)` of
+    client 1 (86–95) return, it is `Some(101)` -/
+example (out : Out) (hret : Returned retH retB 0 94 out) : out = .value (some 101) := by
+  obtain ⟨s₀, hs₀, hser⟩ := retW_issue
+  exact C03_layerB_retained_read retRun_run retW_fit.1 retW_fit.2 (Or.inr ⟨none, none, false, rfl⟩) hs₀ hser
+    (Or.inr ⟨18, by decide, retW_born.1, retW_born.2⟩) (by decide : 37 < 52) retW_acked (Or.inl rfl) retW_reads.1
+    (by decide) hret (by decide) retW_reads.2.2.1
+    (fun q s i r hq1 hq2 => retW_quiet.1 q s i r hq1 (by omega))
+    (fun q s a hq1 hq2 => retW_quiet.2 q s a hq1 (by omega))
+
+example (out : Out) (hret : Returned retH retB 1 95 out) : out = .value (some 101) := by
+  obtain ⟨s₀, hs₀, hser⟩ := retW_issue
+  exact C03_layerB_retained_read retRun_run retW_fit.1 retW_fit.2 (Or.inr ⟨none, none, false, rfl⟩) hs₀ hser
+    (Or.inr ⟨18, by decide, retW_born.1, retW_born.2⟩) (by decide : 37 < 52) retW_acked (Or.inr rfl)
+    retW_reads.2.2.2.1 (by decide) hret (by decide) retW_reads.2.2.2.2.2
+    (fun q s i r hq1 hq2 => retW_quiet.1 q s i r hq1 (by omega))
+    (fun q s a hq1 hq2 => retW_quiet.2 q s a hq1 (by omega))
+
+/-- … and `C03_layerB_no_eviction_when_demand_fits`: the worker never stands inside the eviction loop along `retRun` -/
+example : retB.w.evicting = false ∧ (∀ p ∈ retH, p.1.w.evicting = false) ∧ ∀ st ∈ retB.g.acks, st ≠ .rejected .noSpace :=
+  C03_layerB_no_eviction_when_demand_fits retRun_run retW_fit.1 retW_fit.2
+
+
+theorem modIssued_check {h : List (BState × Act)} {k : Nat} {P : Nat → Nat → Req → Prop}
+    [∀ q i r, Decidable (P q i r)]
+    (hc : allAt h (fun q _ a => match a with | .issue i r => !r.modifies k || decide (P q i r) | _ => true) = true) :
+    ∀ p i r, Issued h i r p → r.modifies k = true → P p i r := by
+  rintro p i r ⟨s, hx⟩ hd
+  have := allAt_sound hc p s _ hx
+  simpa [hd] using this
+
+set_option maxRecDepth 100000 in
+/-- **`retRun` satisfies the serial premise in its English form**: the operations on key 1 — the put at 0, the upsert at 37,
+    the value-less upsert at 67, all by client 0 — are issued one after another, each answered before the next begins -/
+theorem retW_serial : SerialOps 1 retH retB := by
+  intro p p' i i' r r' s' hlt hi hx hm hm'
+  have h1 := modIssued_check (P := fun q i _ => (q = 0 ∨ q = 37 ∨ q = 67) ∧ i = 0) (h := retH) (k := 1) (by decide)
+    p i r hi hm
+  have h2 := modIssued_check (P := fun q i _ => (q = 0 ∨ q = 37 ∨ q = 67) ∧ i = 0) (h := retH) (k := 1) (by decide)
+    p' i' r' ⟨s', hx⟩ hm'
+  obtain ⟨hp, rfl⟩ := h1
+  obtain ⟨hp', rfl⟩ := h2
+  -- the two returns
+  have r0 : FirstRet retH retB 0 0 4 (.ack 0 .pending) :=
+    ⟨by decide, ⟨_, _, rfl, Or.inr ⟨_, rfl⟩, rfl, rfl⟩, noIssue_check (by decide)⟩
+  have r37 : FirstRet retH retB 0 37 48 (.ack 3 .pending) :=
+    ⟨by decide, ⟨_, _, rfl, Or.inr ⟨_, rfl⟩, rfl, rfl⟩, noIssue_check (by decide)⟩
+  have a37 : ∀ s a, At retH 37 (s, a) → s.g.acks[0]? = some .accepted :=
+    at_state_check (P := fun s => s.g.acks[0]? = some .accepted) (by decide)
+  have a67 : ∀ s a, At retH 67 (s, a) → s.g.acks[0]? = some .accepted ∧ s.g.acks[3]? = some .accepted :=
+    at_state_check (P := fun s => s.g.acks[0]? = some .accepted ∧ s.g.acks[3]? = some .accepted) (by decide)
+  rcases hp with rfl | rfl | rfl <;> rcases hp' with rfl | rfl | rfl <;> try omega
+  · exact ⟨4, _, r0, by decide, fun hd st e => by cases e; exact ⟨.accepted, a37 s' _ hx, by simp⟩⟩
+  · exact ⟨4, _, r0, by decide, fun hd st e => by cases e; exact ⟨.accepted, (a67 s' _ hx).1, by simp⟩⟩
+  · exact ⟨48, _, r37, by decide, fun hd st e => by cases e; exact ⟨.accepted, (a67 s' _ hx).2, by simp⟩⟩
+
+/-- `C03_layerB_retained` (the form with `SerialOps`) applied to `retRun` -/
+example (n₁ : Nat) (s₁ : BState) (a₁ : Act) (hat : At retH n₁ (s₁, a₁)) (h1 : 52 ≤ n₁) (h2 : n₁ ≤ 100) :
+    ∃ e, s₁.g.store.get? 1 = some e ∧ e.value = 101 ∧ e.alive s₁.g.now = true := by
+  obtain ⟨s₀, hs₀, _⟩ := retW_issue
+  exact C03_layerB_retained retRun_run retW_fit.1 retW_fit.2 (Or.inr ⟨none, none, false, rfl⟩) hs₀ retW_serial
+    (Or.inr ⟨18, by decide, retW_born.1, retW_born.2⟩) hat (by decide : 37 < 52) h1 retW_acked
+    (fun q s i r hq1 hq2 => retW_quiet.1 q s i r hq1 (by omega))
+    (fun q s a hq1 hq2 => retW_quiet.2 q s a hq1 (by omega))
+
+
+/-! ### no premise can be dropped
+
+  Each run below satisfies every premise of `C03_layerB_retained'` but one, and the lookup of the key finds NOTHING:
+  the write was acknowledged as accepted and is lost. -/
+
+/-! #### (a) the demand does not fit: the key is evicted -/
+
+/-- `retCfg` with a cache weight of 10 -/
+def retSmallCfg : Cfg := { retCfg with maxWeight := 10 }
+def retSmallInit : BState := BState.init retSmallCfg 0 [1, 2, 3, 4] 3
+
+/-- key 1 is put with weight 3 (issued 0, returned 4, answered `Accepted` by action 10); a put of key 2 with weight 8 does
+    not fit the free space 7: the worker's eviction loop (actions 19–24) takes key 1 out; `get(1)` (issued 28) looks key 1 up
+    at action 30 -/
+def retEvictRun : List (Act × Oracle) :=
+  call 0 (.putW 1 100 3 none) 4 ++ workerN 6 ++ call 1 (.putW 2 200 8 none) 4 ++
+  [(.worker, noO), (.worker, noO), (.worker, { dk := [false] }),
+   (.worker, { dk := [false], ids := [1], pops := [some 1] })] ++ workerN 8 ++ [retI 0 (.get 1), retC 0, retC 0]
+
+abbrev retEvH : List (BState × Act) := retHist retSmallInit retEvictRun
+abbrev retEvB : BState := retFinal retSmallInit retEvictRun
+
+set_option maxRecDepth 100000 in
+theorem retEvict_ok : retOk retSmallInit retEvictRun = true := by decide
+
+set_option maxRecDepth 100000 in
+/-- **`DemandFits` cannot be dropped** (3 + 8 > 10): every other premise of `C03_layerB_retained'` holds — no `shutdown()`;
+    the put of `(1, 100)` issued at 0 in the initial state (nothing before it, key 1 absent), acknowledged `Accepted` by
+    action 11; no put / delete / value-carrying upsert of key 1 afterwards; no time-to-live at all — and the lookup of key 1
+    at action 30 finds no entry: key 1 was EVICTED. -/
+theorem C03_layerB_retained_needs_demand_fits :
+    RunH { BState.init retSmallCfg 0 [1, 2, 3, 4] 3 with storeShard := [] } retEvH retEvB ∧
+    ¬ DemandFits retSmallCfg retEvH ∧ NoShutdownReq retEvH ∧
+    (∃ s₀, At retEvH 0 (s₀, .issue 0 (.putW 1 100 3 none)) ∧ s₀.g.store.get? 1 = none) ∧
+    AckedAcceptedAt retEvH retEvB 0 0 11 ∧
+    (∀ q s i r, 0 < q → q < 30 → At retEvH q (s, .issue i r) → r.danger 1 = false) ∧
+    LiveDuring 1 retEvH 0 30 ∧
+    (∃ s, At retEvH 30 (s, .client 0) ∧ s.cl[0]? = some (.getStore 1) ∧ s.g.store.get? 1 = none) ∧
+    (∃ p ∈ retEvH, p.1.w.evicting = true) := by
+  refine ⟨retRunH retEvict_ok, by decide, by decide, ⟨_, rfl, rfl⟩, ?_, noDanger_check (by decide),
+    liveDuring_check (by decide), ⟨_, rfl, rfl, rfl⟩, ?_⟩
+  · exact ⟨4, 0, .pending, _, _, ⟨by decide, ⟨_, _, rfl, Or.inr ⟨_, rfl⟩, rfl, rfl⟩, noIssue_check (by decide)⟩,
+      by decide, rfl, rfl⟩
+  · have h22 : ∃ s, At retEvH 22 (s, .worker) ∧ s.w.evicting = true := ⟨_, rfl, rfl⟩
+    obtain ⟨s, hs, he⟩ := h22
+    refine ⟨(s, .worker), ?_, he⟩
+    have := List.mem_of_getElem? hs
+    simpa using this
+
+/-! #### (b) operations on the key overlap: a `delete` issued earlier is still under way -/
+
+/-- client 1 begins `delete(1)` (issued 0; it stands at `cmd.send` from action 2 on); client 0 puts key 1 (issued 3,
+    returned 7, answered `Accepted` by action 13); then client 1's `Delete(1)` is sent (14) and applied (15–18);
+    `get(1)` (issued 19) looks key 1 up at action 21 -/
+def retOverlapRun : List (Act × Oracle) :=
+  [retI 1 (.delete 1), retC 1, retC 1] ++ call 0 (.putW 1 100 5 none) 4 ++ workerN 6 ++
+  [retC 1, retW, retW, retW, retW, retI 0 (.get 1), retC 0, retC 0]
+
+abbrev retOvH : List (BState × Act) := retHist retInit retOverlapRun
+abbrev retOvB : BState := retFinal retInit retOverlapRun
+
+set_option maxRecDepth 100000 in
+theorem retOverlap_ok : retOk retInit retOverlapRun = true := by decide
+
+set_option maxRecDepth 100000 in
+/-- **The serial premise cannot be dropped**: every other premise of `C03_layerB_retained'` holds — the demand fits, no
+    `shutdown()`, key 1 absent when the put is issued at 3, the put acknowledged `Accepted` by action 14, no put / delete /
+    value-carrying upsert of key 1 issued AFTER 3, no time-to-live — but the `delete(1)` issued at 0 has not been answered
+    when the put is issued, and the lookup of key 1 at action 21 finds no entry. -/
+theorem C03_layerB_retained_needs_serial :
+    RunH { BState.init retCfg 0 [1, 2, 3, 4] 3 with storeShard := [] } retOvH retOvB ∧
+    DemandFits retCfg retOvH ∧ NoShutdownReq retOvH ∧
+    (∃ s₀, At retOvH 3 (s₀, .issue 0 (.putW 1 100 5 none)) ∧ s₀.g.store.get? 1 = none ∧
+      s₀.cl[1]? = some (.send (.delete 1))) ∧
+    Issued retOvH 1 (.delete 1) 0 ∧
+    AckedAcceptedAt retOvH retOvB 0 3 14 ∧
+    (∀ q s i r, 3 < q → q < 21 → At retOvH q (s, .issue i r) → r.danger 1 = false) ∧
+    LiveDuring 1 retOvH 3 21 ∧
+    (∃ s, At retOvH 21 (s, .client 0) ∧ s.cl[0]? = some (.getStore 1) ∧ s.g.store.get? 1 = none) := by
+  refine ⟨retRunH retOverlap_ok, by decide, by decide, ⟨_, rfl, rfl, rfl⟩, ⟨_, rfl⟩, ?_, noDanger_check (by decide),
+    liveDuring_check (by decide), ⟨_, rfl, rfl, rfl⟩⟩
+  exact ⟨7, 0, .pending, _, _, ⟨by decide, ⟨_, _, rfl, Or.inr ⟨_, rfl⟩, rfl, rfl⟩, noIssue_check (by decide)⟩,
+    by decide, rfl, rfl⟩
+
+/-- … hence, by `C03_layerB_retained'` itself, the serial premise FAILS of that run -/
+example : ¬ ∀ s₀, At retOvH 3 (s₀, .issue 0 (.putW 1 100 5 none)) →
+    ∀ p i r, p < 3 → Issued retOvH i r p → r.danger 1 = true → AnsweredBy retOvH retOvB i p 3 s₀ := by
+  intro hser
+  obtain ⟨hrun, hfit, hns, ⟨s₀, hs₀, hnone, _⟩, _, hA, hN, hL, ⟨s, hs, _, hk⟩⟩ := C03_layerB_retained_needs_serial
+  obtain ⟨e, he, _⟩ := C03_layerB_retained' hrun hfit hns (Or.inl ⟨5, none, rfl⟩) hs₀ (hser s₀ hs₀) (Or.inl hnone) hs
+    (by decide : 3 < 14) (by decide) hA hN hL
+  rw [hk] at he; cases he
+
+/-! #### (c) the time-to-live had elapsed before: the entry was revived (known finding D3) -/
+
+/-- key 1 is put with a time-to-live of 1 s (`store.put`: action 10); the clock moves to 3 s; the sweeper finds the entry
+    due, checks it and takes its charge out of the ledger (13–15: it stands at `wu.sub`, past its check); client 1's value-less
+    `put_or_update(1, ttl 10 s)` REVIVES the entry (`upsert.update`: action 18; it then waits for the shard lock the sweeper
+    holds); client 0's `put_or_update(1, Some(101))` (issued 20, returned 24, answered `Accepted` by action 26) finds a live
+    entry; the sweeper carries the eviction through (27, 28); `get(1)` (issued 29) looks key 1 up at action 31 -/
+def retReviveRun : List (Act × Oracle) :=
+  call 0 (.putW 1 100 5 (some retS)) 4 ++ workerN 7 ++
+  [(.advance (3 * retS), noO), retSw none, retSw (some 1), retSw none,
+   retI 1 (.upsert 1 none none (some (10 * retS)) false), retC 1, retC 1, retC 1,
+   retI 0 (.upsert 1 (some 101) none none false), retC 0, retC 0, retC 0, retC 0, retW, retW,
+   retSw none, retSw none, retI 0 (.get 1), retC 0, retC 0]
+
+abbrev retRvH : List (BState × Act) := retHist retInit retReviveRun
+abbrev retRvB : BState := retFinal retInit retReviveRun
+
+set_option maxRecDepth 100000 in
+theorem retRevive_ok : retOk retInit retReviveRun = true := by decide
+
+set_option maxRecDepth 100000 in
+/-- **The premise "the time-to-live has not elapsed at any moment since the entry was born" (`hborn`) cannot be dropped**
+    (FINDING, an instance of the known finding D3): every other premise of `C03_layerB_retained'` holds — the demand fits, no
+    `shutdown()`, the one put of key 1 issued before the write (at 0) was answered, the write of `(1, 101)` issued at 20 is
+    acknowledged `Accepted` by action 27, no put / delete / value-carrying upsert of key 1 afterwards, and FROM THE ISSUE OF
+    THE WRITE ON the entry of key 1 is live in every state (deadline 13 s, clock 3 s) — and the lookup of key 1 at action 31
+    finds no entry: the sweeper, already past its check when the entry was revived, removed it. -/
+theorem C03_layerB_retained_needs_no_revival :
+    RunH { BState.init retCfg 0 [1, 2, 3, 4] 3 with storeShard := [] } retRvH retRvB ∧
+    DemandFits retCfg retRvH ∧ NoShutdownReq retRvH ∧
+    (∃ s₀, At retRvH 20 (s₀, .issue 0 (.upsert 1 (some 101) none none false)) ∧
+      (∀ p i r, p < 20 → Issued retRvH i r p → r.danger 1 = true → AnsweredBy retRvH retRvB i p 20 s₀) ∧
+      ¬ EvInv s₀ 1) ∧
+    AckedAcceptedAt retRvH retRvB 0 20 27 ∧
+    (∀ q s i r, 20 < q → q < 31 → At retRvH q (s, .issue i r) → r.danger 1 = false) ∧
+    LiveDuring 1 retRvH 20 31 ∧
+    (∃ s, At retRvH 31 (s, .client 0) ∧ s.cl[0]? = some (.getStore 1) ∧ s.g.store.get? 1 = none) := by
+  refine ⟨retRunH retRevive_ok, by decide, by decide, ?_, ?_, noDanger_check (by decide),
+    liveDuring_check (by decide), ⟨_, rfl, rfl, rfl⟩⟩
+  · obtain ⟨s₀, hs₀⟩ : ∃ s₀, At retRvH 20 (s₀, .issue 0 (.upsert 1 (some 101) none none false)) := ⟨_, rfl⟩
+    refine ⟨s₀, hs₀, ?_, ?_⟩
+    · intro p i r hp hi hd
+      obtain ⟨rfl, rfl⟩ := dangerIssued_check (P := fun q i _ => q = 0 ∧ i = 0) (h := retRvH) (k := 1) (n := 20)
+        (by decide) p i r hp hi hd
+      have hacks : s₀.g.acks[0]? = some .accepted :=
+        at_state_check (h := retRvH) (n := 20) (P := fun s => s.g.acks[0]? = some .accepted) (by decide) s₀ _ hs₀
+      exact ⟨4, .ack 0 .pending, ⟨by decide, ⟨_, _, rfl, Or.inr ⟨_, rfl⟩, rfl, rfl⟩, noIssue_check (by decide)⟩,
+        by decide, fun hd st e => by cases e; exact ⟨.accepted, hacks, by simp⟩⟩
+    · -- the sweeper stands at `wu.sub` of the id of the (live) entry
+      have hst := at_state_check (h := retRvH) (n := 20)
+        (P := fun s => s.g.store.get? 1 = some ⟨100, 1, some 13000000000, false⟩ ∧ s.g.now = 3000000000 ∧
+          eview s 1 = some 3000000000) (by decide) s₀ _ hs₀
+      intro hE
+      obtain ⟨t, ht, hgt⟩ := hE _ _ hst.1 hst.2.2
+      cases ht
+      rw [hst.2.1] at hgt
+      omega
+  · exact ⟨24, 1, .pending, _, _, ⟨by decide, ⟨_, _, rfl, Or.inr ⟨_, rfl⟩, rfl, rfl⟩, noIssue_check (by decide)⟩,
+      by decide, rfl, rfl⟩
+
+/-- … hence, by `C03_layerB_retained'` itself, `hborn` FAILS of that run: the incarnation standing at 20 HAD stood expired -/
+example : ¬ ∀ s₀, At retRvH 20 (s₀, .issue 0 (.upsert 1 (some 101) none none false)) →
+    (s₀.g.store.get? 1 = none ∨ ∃ c, c < 20 ∧ (∀ x, At retRvH c x → isPutAny 1 x) ∧ LiveDuring 1 retRvH (c + 1) 20) := by
+  intro hborn
+  obtain ⟨hrun, hfit, hns, ⟨s₀, hs₀, hser, _⟩, hA, hN, hL, ⟨s, hs, _, hk⟩⟩ := C03_layerB_retained_needs_no_revival
+  obtain ⟨e, he, _⟩ := C03_layerB_retained' hrun hfit hns (Or.inr ⟨none, none, false, rfl⟩) hs₀ hser (hborn s₀ hs₀) hs
+    (by decide : 20 < 27) (by decide) hA hN hL
+  rw [hk] at he; cases he
+
+
+/-! #### (d) FINDING: with the time-to-live premise read as "the clock is not past the deadline AT THE READ" the property is false -/
+
+/-- key 1 is put with a time-to-live of 1 s; the clock moves to 3 s; the sweeper finds the entry due, checks it and stands at
+    `wu.sub` (13–15).  The same client then issues `put_or_update(1, Some(101), ttl 10 s)` (16) — operations on key 1 strictly
+    one after another.  Its `upsert.update` (action 18) REVIVES the expired-but-unswept entry (value 101, deadline 13 s) and
+    the call waits for the expiry shard's lock; the sweeper carries the eviction through (20, 21: key 1 is removed); the call
+    goes on (22–24), its `UpdateWeight` is answered `Accepted` (26).  `get(1)` (issued 27) looks key 1 up at action 29. -/
+def retLiteralRun : List (Act × Oracle) :=
+  call 0 (.putW 1 100 5 (some retS)) 4 ++ workerN 7 ++
+  [(.advance (3 * retS), noO), retSw none, retSw (some 1), retSw none,
+   retI 0 (.upsert 1 (some 101) none (some (10 * retS)) false), retC 0, retC 0, retC 0,
+   retSw none, retSw none, retC 0, retC 0, retC 0, retW, retW, retI 0 (.get 1), retC 0, retC 0]
+
+abbrev retLtH : List (BState × Act) := retHist retInit retLiteralRun
+abbrev retLtB : BState := retFinal retInit retLiteralRun
+
+set_option maxRecDepth 100000 in
+theorem retLiteral_ok : retOk retInit retLiteralRun = true := by decide
+
+set_option maxRecDepth 100000 in
+/-- **FINDING (known finding D3, at action granularity): C03 read with "its current time-to-live has not elapsed" checked
+    only AT THE READ is FALSE of the model.**  In `retLiteralRun` the demand fits, no `shutdown()` is requested, the
+    operations on key 1 are issued one after another (`SerialOps`), the latest write `put_or_update(1, Some(101), ttl 10 s)`
+    (issued 16) is acknowledged `Accepted` (by action 27), no `delete(1)` and no other write of key 1 follows, and at the
+    read's lookup (action 29, clock 3 s) the clock is NOT past the deadline that write set (its `upsert.update`, action 18,
+    ran at 3 s and set 3 s + 10 s = 13 s) — and the lookup finds NO entry: `get(1)` returns `None`.
+    The write found an entry whose time-to-live HAD elapsed (expired but unswept) and revived it while the sweeper was
+    already carrying its eviction through.  `C03_layerB_retained'` excludes this by requiring the entry live in every state
+    FROM THE ISSUE OF THE WRITE (here it is expired at 16: `LiveDuring` fails) and never expired since its birth (`hborn`). -/
+theorem C03_layerB_retained_literal_counterexample :
+    RunH { BState.init retCfg 0 [1, 2, 3, 4] 3 with storeShard := [] } retLtH retLtB ∧
+    DemandFits retCfg retLtH ∧ NoShutdownReq retLtH ∧ SerialOps 1 retLtH retLtB ∧
+    Issued retLtH 0 (.upsert 1 (some 101) none (some (10 * retS)) false) 16 ∧
+    AckedAcceptedAt retLtH retLtB 0 16 27 ∧
+    (∀ q s i r, 16 < q → q < 29 → At retLtH q (s, .issue i r) → r.danger 1 = false) ∧
+    (∃ s, At retLtH 18 (s, .client 0) ∧ s.cl[0]? = some (.upUpdate 1 (some 101) none (some (10 * retS)) false) ∧
+      s.g.now = 3 * retS) ∧
+    (∃ s, At retLtH 29 (s, .client 0) ∧ s.cl[0]? = some (.getStore 1) ∧ s.g.now ≤ 3 * retS + 10 * retS ∧
+      s.g.store.get? 1 = none) ∧
+    Returned retLtH retLtB 0 29 (.value none) ∧
+    ¬ LiveDuring 1 retLtH 16 29 := by
+  refine ⟨retRunH retLiteral_ok, by decide, by decide, ?_, ⟨_, rfl⟩, ?_, noDanger_check (by decide),
+    ⟨_, rfl, rfl, rfl⟩, ⟨_, rfl, rfl, by decide, rfl⟩, ⟨_, _, rfl, Or.inl ⟨rfl, rfl⟩, rfl, rfl⟩, ?_⟩
+  · intro p p' i i' r r' s' hlt hi hx hm hm'
+    have h1 := modIssued_check (P := fun q i _ => (q = 0 ∨ q = 16) ∧ i = 0) (h := retLtH) (k := 1) (by decide)
+      p i r hi hm
+    have h2 := modIssued_check (P := fun q i _ => (q = 0 ∨ q = 16) ∧ i = 0) (h := retLtH) (k := 1) (by decide)
+      p' i' r' ⟨s', hx⟩ hm'
+    obtain ⟨hp, rfl⟩ := h1
+    obtain ⟨hp', rfl⟩ := h2
+    have r0 : FirstRet retLtH retLtB 0 0 4 (.ack 0 .pending) :=
+      ⟨by decide, ⟨_, _, rfl, Or.inr ⟨_, rfl⟩, rfl, rfl⟩, noIssue_check (by decide)⟩
+    have a16 : ∀ s a, At retLtH 16 (s, a) → s.g.acks[0]? = some .accepted :=
+      at_state_check (P := fun s => s.g.acks[0]? = some .accepted) (by decide)
+    rcases hp with rfl | rfl <;> rcases hp' with rfl | rfl <;> try omega
+    exact ⟨4, _, r0, by decide, fun hd st e => by cases e; exact ⟨.accepted, a16 s' _ hx, by simp⟩⟩
+  · exact ⟨24, 1, .pending, _, _, ⟨by decide, ⟨_, _, rfl, Or.inr ⟨_, rfl⟩, rfl, rfl⟩, noIssue_check (by decide)⟩,
+      by decide, rfl, rfl⟩
+  · intro hl
+    have h16 : ∃ s a, At retLtH 16 (s, a) := ⟨_, _, rfl⟩
+    obtain ⟨s, a, hs⟩ := h16
+    have := hl 16 s a (Nat.le_refl _) (by decide) hs
+    have hst := at_state_check (h := retLtH) (n := 16)
+      (P := fun s => ¬ LiveK 1 s) (by decide) s a hs
+    exact hst this
+
+/-! ### `SerialOps` and the state predicate `Serial` of IndexStep.lean
+
+  `C03_layerB_serial_key_not_lost_to_sweeper` (IndexStep.lean) assumes `SerialEv · k` — clause (ce) of `Serial · k` — in
+  EVERY state of the run: no client is in the middle of an index update of the id of `k`'s entry while the SWEEPER carries
+  the eviction of that id through.  That is a condition on the sweeper's position, not on the order of the operations on
+  `k`, and `SerialOps` does not imply it: below, ONE client works on key 1 strictly serially (a put, then — after the
+  time-to-live has elapsed — a value-less upsert) and the state is not `SerialEv`.  What makes the sweeper harmless in
+  `C03_layerB_retained'` is the time-to-live premise instead: as long as the entry has never stood expired the sweeper is
+  never past its check of the entry's id (`EvInv`, kept by `evinv_step_live` without any serial hypothesis), and an entry
+  that is live is not removed (`evinv_sweeper_keeps`). -/
+
+/-- the first 18 actions of `retReviveRun`, the reviving upsert issued by client 0 (the client that put the key) -/
+def retSerialRun : List (Act × Oracle) :=
+  call 0 (.putW 1 100 5 (some retS)) 4 ++ workerN 7 ++
+  [(.advance (3 * retS), noO), retSw none, retSw (some 1), retSw none,
+   retI 0 (.upsert 1 none none (some (10 * retS)) false), retC 0, retC 0]
+
+abbrev retSrH : List (BState × Act) := retHist retInit retSerialRun
+abbrev retSrB : BState := retFinal retInit retSerialRun
+
+set_option maxRecDepth 100000 in
+theorem retSerial_ok : retOk retInit retSerialRun = true := by decide
+
+set_option maxRecDepth 100000 in
+/-- **`SerialOps k` does not imply `SerialEv · k`** (hence not `Serial · k`): the operations on key 1 are issued one after
+    another by one client, and in the final state that client is in the middle of the index update of the id of key 1's entry
+    while the sweeper stands at `wu.sub` of the eviction of that id -/
+theorem serialOps_not_serialEv :
+    RunH { BState.init retCfg 0 [1, 2, 3, 4] 3 with storeShard := [] } retSrH retSrB ∧
+    SerialOps 1 retSrH retSrB ∧ ¬ SerialEv retSrB 1 := by
+  refine ⟨retRunH retSerial_ok, ?_, ?_⟩
+  · intro p p' i i' r r' s' hlt hi hx hm hm'
+    have h1 := modIssued_check (P := fun q i _ => (q = 0 ∨ q = 16) ∧ i = 0) (h := retSrH) (k := 1) (by decide)
+      p i r hi hm
+    have h2 := modIssued_check (P := fun q i _ => (q = 0 ∨ q = 16) ∧ i = 0) (h := retSrH) (k := 1) (by decide)
+      p' i' r' ⟨s', hx⟩ hm'
+    obtain ⟨hp, rfl⟩ := h1
+    obtain ⟨hp', rfl⟩ := h2
+    have r0 : FirstRet retSrH retSrB 0 0 4 (.ack 0 .pending) :=
+      ⟨by decide, ⟨_, _, rfl, Or.inr ⟨_, rfl⟩, rfl, rfl⟩, noIssue_check (by decide)⟩
+    have a16 : ∀ s a, At retSrH 16 (s, a) → s.g.acks[0]? = some .accepted :=
+      at_state_check (P := fun s => s.g.acks[0]? = some .accepted) (by decide)
+    rcases hp with rfl | rfl <;> rcases hp' with rfl | rfl <;> try omega
+    exact ⟨4, _, r0, by decide, fun hd st e => by cases e; exact ⟨.accepted, a16 s' _ hx, by simp⟩⟩
+  · intro hse
+    have hk : retSrB.g.store.get? 1 = some ⟨100, 1, some 13000000000, false⟩ := by decide
+    have hc : cview retSrB 1 0 ≠ none := by decide
+    have := hse _ hk 0 hc
+    revert this
+    decide
 
 end B
 end Cached
